@@ -498,6 +498,7 @@ Proof.
             | Some s => match nid_parse s with Some n => Some (Some n) | None => None end
             | None => Some None end) as [ob|]; [|reflexivity].
   destruct (list_eqb_spec dom (domain cfg)) as [->|Hd]; cbn [negb]; [|reflexivity].
+  destruct (_ && (max_channels cfg <=? _)); [reflexivity|].
   set (who := match ob with Some n => _ | None => _ end).
   assert (Hwho : (exists e, who = inl e) \/
                  (exists n, who = inr n /\
